@@ -51,4 +51,8 @@ end
 def preferred (inp : Inputs) (vars : List Tok) : List (Tok × Bool) :=
   vars.map fun v => (v, (domainOf inp v).getLast?.getD false)
 
+/-- the query with the forced sets cut down to IUSE (profiles force and mask flags a package need not have) -/
+def restrictForced (inp : Inputs) : Inputs :=
+  { inp with forceT := inp.forceT.filter inp.iuse.contains, forceF := inp.forceF.filter inp.iuse.contains }
+
 end Pkgcore.C10.Spec
